@@ -4,13 +4,15 @@
 wt=$1; n=$2; d=$wt/deliver/$n
 cd $wt || exit 3
 git checkout -q -- . ; rm -f cglue/tests/seeded_demo.rs
+FEAT=""; grep -q "cglue::task\|feature = \"task\"" $d/demo.rs 2>/dev/null && FEAT="--features task,futures"
 run_demo() {
-  if [ -f $d/demo/Cargo.toml ]; then
+  if [ -f $d/demo/run.sh ]; then (cd $d/demo && sh run.sh >/dev/null 2>$wt/demo.err)
+  elif [ -f $d/demo/Cargo.toml ]; then
     if [ -f $d/demo/src/main.rs ]; then (cd $d/demo && CARGO_TARGET_DIR=$wt/target/demo cargo run --offline -q >/dev/null 2>$wt/demo.err); else (cd $d/demo && CARGO_TARGET_DIR=$wt/target/demo cargo test --offline -q >/dev/null 2>$wt/demo.err); fi
   elif grep -q "^fn main" $d/demo.rs; then
-    mkdir -p cglue/examples && cp $d/demo.rs cglue/examples/seeded_demo.rs && cargo run -p cglue --example seeded_demo --offline -q >/dev/null 2>$wt/demo.err; r=$?; rm -f cglue/examples/seeded_demo.rs; rmdir cglue/examples 2>/dev/null; return $r
+    mkdir -p cglue/examples && cp $d/demo.rs cglue/examples/seeded_demo.rs && cargo run -p cglue $FEAT --example seeded_demo --offline -q >/dev/null 2>$wt/demo.err; r=$?; rm -f cglue/examples/seeded_demo.rs; rmdir cglue/examples 2>/dev/null; return $r
   else
-    mkdir -p cglue/tests && cp $d/demo.rs cglue/tests/seeded_demo.rs && cargo test -p cglue --test seeded_demo --offline -q >/dev/null 2>$wt/demo.err; r=$?; rm -f cglue/tests/seeded_demo.rs; return $r
+    mkdir -p cglue/tests && cp $d/demo.rs cglue/tests/seeded_demo.rs && cargo test -p cglue $FEAT --test seeded_demo --offline -q >/dev/null 2>$wt/demo.err; r=$?; rm -f cglue/tests/seeded_demo.rs; return $r
   fi
 }
 git apply $d/patch.diff || { echo "$wt/$n: PATCH DOES NOT APPLY"; exit 3; }
